@@ -28,6 +28,11 @@ for every locally stored revision the revision tree is read file by file and
 compared with the generator's contents, the delta to every present parent is
 computed, and check() is run; the tip of a pushed branch must be readable.
 
+Pack / autopack: explicit Repository.pack() (once, twice, after a fetch), and bursts of 12 commits straight into
+the stacked branch so that autopack combines packs, are part of the operation alphabet; the model's `pack` keeps
+every key (theorem pack_preserves_stackable); the oracle also requires that the tip can be fetched from the stacked
+repository opened WITHOUT its fallback into a mirror of the fallback.
+
 Mutants this was built against: see the list at the end of this docstring.
  S1  _ensure_fallback_inventories returns immediately (no parent inventories on commit)        O
  S2  get_missing_parent_inventories returns an empty set                                        O
@@ -47,6 +52,7 @@ from checks import c03
 THEOREMS = [
     "stackable_readable", "commit_to_stacked_preserves", "commit_refused_iff", "fetch_into_stacked_preserves",
     "check_accepts_stackable", "refusal_iff_stackable", "refusal_alone_witness",
+    "pack_preserves_lookups", "pack_preserves_stackable",
 ]
 RULE = ("scenario = (seed, history, split point k, transport mode); case = one operation (fetch / push / commit / "
         "sabotaged insert) on the stacked branch in its current state; non-trivial = the operation stores at least "
@@ -389,17 +395,89 @@ def op_sabotage(ctx, W, case, rng, rev, batch, expect):
         ctx.violation(case, "a write group without the text %r was accepted by commit_write_group" % (dropped[0][1],))
 
 
+def serve_alone(W):
+    """the stacked repository opened WITHOUT its fallback must be able to stream its branch tip to a
+    repository that holds the fallback's revisions (what a smart server serving it alone does)"""
+    from breezy.branch import Branch
+    from breezy.controldir import ControlDir
+    tip = Branch.open(W.st_path).last_revision()
+    st = local_state(W.st_path)
+    if tip == NULL or tip not in st["revs"]:
+        return []
+    W.nmirror = getattr(W, "nmirror", 0) + 1
+    mpath = os.path.join(W.root, "mirror%d" % W.nmirror)
+    try:
+        ControlDir.open(W.fb_path).sprout(mpath)
+        mirror = c03.open_repo(mpath)
+        bare = c03.open_repo(W.st_path)             # no fallback configured on a bare Repository.open
+        mirror.fetch(bare, revision_id=tip)
+        m = c03.open_repo(mpath)
+        with m.lock_read():
+            t = m.revision_tree(tip)
+            for path, ie in t.iter_entries_by_dir():
+                if ie.kind == "file":
+                    t.get_file_text(path)
+    except Exception as e:
+        return ["the tip %r cannot be fetched from the stacked repository opened without its fallback into a "
+                "mirror of the fallback: %s: %s" % (tip, type(e).__name__, str(e)[:160])]
+    finally:
+        shutil.rmtree(mpath, ignore_errors=True)
+    return []
+
+
 def oracle(ctx, W, case, st, fb, expect):
     for b in stackable_direct(st, fb)[:3]:
         ctx.violation(case, "stacking invariant broken: " + b)
     for b in read_with_fallback(W, expect)[:3]:
         ctx.violation(case, b)
+    if not stackable_direct(st, fb):
+        pass
+    for b in serve_alone(W):
+        ctx.violation(case, b)
+
+
+def op_pack(ctx, W, case, batch, expect, times=1):
+    """Repository.pack() on the stacked repository (once or twice): no key may disappear"""
+    from breezy.branch import Branch
+    st0, fb, d, nb, roots = enc_world(W)
+    outcome = "ok"
+    try:
+        for _ in range(times):
+            repo = Branch.open(W.st_path).repository
+            repo.pack()
+    except Exception as e:
+        outcome = "E:%s:%s" % (type(e).__name__, str(e)[:160])
+    st1 = local_state(W.st_path)
+    ctx.count("op:pack x%d" % times)
+    ctx.count("packs-before:%d" % min(len(st0["packs"] or []), 12))
+    ctx.case(dict(case, n_local=len(st0["revs"]), n_invs=len(st0["invs"]), packs=len(st0["packs"] or [])),
+             nontrivial=len(st0["invs"]) > len(st0["revs"]))
+    if outcome != "ok":
+        ctx.violation(case, "pack of the stacked repository failed: %s" % outcome)
+    for kind in ("revs", "invs", "texts"):
+        gone = sorted(set(st0[kind]) - set(st1[kind]))
+        if gone:
+            ctx.violation(case, "pack dropped %s %r from the stacked repository" % (kind, gone[:4]))
+    oracle(ctx, W, case, st1, fb, expect)
+    line = "spack %s %s" % (enc3(st0, nb, roots), enc3(fb, nb, roots))
+    impl = "ok %s T" % after3(st1, nb, roots) if outcome == "ok" else ":".join(outcome.split(":")[:2])
+    batch.append((case, line, impl))
+
+
+def op_burst(ctx, W, case_of, rng, n, batch, expect, hist):
+    """n plain commits in a row straight into the stacked branch (autopack fires at the 10th pack)"""
+    for _ in range(n):
+        op_commit(ctx, W, case_of("commit", kind="plain", burst=True), rng, "plain", batch, expect, hist)
+        if len(ctx.violations) > W_viol0(W, ctx):
+            return
 
 
 # ------------------------------------------------------------------ scenarios
 def run_scenario(ctx, key, stop_at=None):
-    """key = (seed, idx, split, mode)"""
-    seed, idx, split, mode = key
+    """key = (seed, idx, split, mode[, kind]); kind: random | packseq (commit, commit, pack, pack) |
+    burst (12 commits so that autopack combines packs) | fetchpack (fetch, pack, commit, pack)"""
+    seed, idx, split, mode = key[:4]
+    kind = key[4] if len(key) > 4 else "random"
     rng = random.Random(repr(("C08", seed, idx)))
     c03.NUL_FAMILY[0] = False
     W = World()
@@ -438,7 +516,22 @@ def run_scenario(ctx, key, stop_at=None):
             return dict(key=list(key), step=step[0], op=op, **kw)
 
         later = [rv.rid for rv in revs[split % len(revs) + 1:]] or [k]
-        nops = rng.randint(3, 5)
+        if kind != "random":
+            if kind == "packseq":
+                op_commit(ctx, W, case_of("commit", kind="plain"), rng, "plain", batch, expect, revs)
+                op_commit(ctx, W, case_of("commit", kind="merge-fallback"), rng, "merge-fallback", batch, expect, revs)
+                op_pack(ctx, W, case_of("pack", times=1), batch, expect, 1)
+                op_pack(ctx, W, case_of("pack", times=1), batch, expect, 1)
+            elif kind == "burst":
+                op_burst(ctx, W, case_of, rng, 12, batch, expect, revs)
+            elif kind == "fetchpack":
+                rev = rng.choice(later)
+                op_fetch(ctx, W, case_of("fetch", rev=rev.decode(), via="local"), rev, "local", False, batch, expect)
+                op_pack(ctx, W, case_of("pack", times=1), batch, expect, 1)
+                op_commit(ctx, W, case_of("commit", kind="plain"), rng, "plain", batch, expect, revs)
+                op_pack(ctx, W, case_of("pack", times=2), batch, expect, 2)
+            return batch
+        nops = rng.randint(4, 7)
         for j in range(nops):
             r = rng.random()
             if j == 0:
@@ -449,9 +542,12 @@ def run_scenario(ctx, key, stop_at=None):
                 via = "remote" if (mode == "remote" and rng.random() < 0.7) else "local"
                 push = rng.random() < 0.4
                 op_fetch(ctx, W, case_of("push" if push else "fetch", rev=rev.decode(), via=via), rev, via, push, batch, expect)
-            elif r < 0.8:
-                kind = rng.choice(["plain", "plain", "merge-fallback", "merge-d", "merge-ghost"])
-                op_commit(ctx, W, case_of("commit", kind=kind), rng, kind, batch, expect, revs)
+            elif r < 0.7:
+                ckind = rng.choice(["plain", "plain", "merge-fallback", "merge-d", "merge-ghost"])
+                op_commit(ctx, W, case_of("commit", kind=ckind), rng, ckind, batch, expect, revs)
+            elif r < 0.85:
+                t_ = rng.choice([1, 1, 2])
+                op_pack(ctx, W, case_of("pack", times=t_), batch, expect, t_)
             else:
                 rev = rng.choice(later)
                 op_sabotage(ctx, W, case_of("sabotage", rev=rev.decode()), rng, rev, batch, expect)
@@ -482,13 +578,16 @@ def W_viol0(W, ctx):
 
 def scenario_keys(ctx):
     keys = []
-    nh = ctx.pick(3, 10)
+    nh = ctx.pick(5, 10)
     i = 0
     for h in range(nh):
         splits = range(8) if ctx.thorough() else [(ctx.seed + h * 3) % 8, (ctx.seed + h * 3 + 4) % 8]
         for sp in splits:
             keys.append((ctx.seed, h, sp, "remote" if (i + ctx.seed) % 3 == 0 else "local"))
             i += 1
+    # pack / autopack sequences on the stacked repository
+    for j, kind in enumerate(["packseq", "burst", "fetchpack"] * ctx.pick(1, 3)):
+        keys.append((ctx.seed, 100 + j, (ctx.seed + 2 * j + 1) % 8, "local", kind))
     return keys
 
 
@@ -503,6 +602,12 @@ def _flush(ctx, batch):
 
 def run(ctx):
     batch = []
+    corpus = os.path.join(env.VERIF, "corpus", "C08")
+    if os.path.isdir(corpus):
+        import json
+        for fn in sorted(os.listdir(corpus)):
+            if fn.endswith(".json"):
+                batch += run_scenario(ctx, tuple(json.load(open(os.path.join(corpus, fn)))["key"]))
     for key in scenario_keys(ctx):
         batch += run_scenario(ctx, key)
     _flush(ctx, batch)
